@@ -91,6 +91,65 @@ func checkReceiverLoop(c *Check, p *Program, rule string, fn *ssa.Function) {
 		c.Fail(rule, name+" receive loop", p.InstrPos(unpackCall), "the decode is not inside a loop: the receiver handles one frame only")
 		return
 	}
+	// every datagram that can hold a frame reaches the decoder: the only conditions on the byte count on the way
+	// to the decode are ones every count >= 6 (a header) satisfies
+	if sl, ok := unpackCall.Common().Args[0].(*ssa.Slice); ok && sl.High != nil {
+		cnt := stripAllConv(sl.High)
+		okCnt, bad := true, ""
+		for _, f := range factsAt(unpackCall.Block()) {
+			x, y, op := f.X, f.Y, f.Op
+			if stripAllConv(y) == cnt {
+				x, y, op = y, x, swapOp(op)
+			}
+			if stripAllConv(x) != cnt {
+				continue
+			}
+			k, isK := constInt(y)
+			if !isK {
+				continue
+			}
+			implied := false
+			switch op {
+			case token.NEQ:
+				implied = k < 6
+			case token.GTR:
+				implied = k < 6
+			case token.GEQ:
+				implied = k <= 6
+			}
+			if !implied {
+				okCnt, bad = false, fmt.Sprintf("count %s %d", op, k)
+			}
+		}
+		c.Decide(okCnt, rule, name+" every datagram with a header reaches the decoder", p.InstrPos(unpackCall), "only empty (or shorter-than-header) reads are discarded before the decode", "the decode is reached only when "+bad+": datagrams that hold a frame are discarded before they are decoded")
+	}
+	// a sender address that is tested for nil is never dereferenced where it may be nil
+	for _, prm := range fn.Params {
+		if _, isP := prm.Type().(*types.Pointer); !isP {
+			continue
+		}
+		tested := false
+		instrsOf(fn, func(in ssa.Instruction) {
+			if bo, ok := in.(*ssa.BinOp); ok && (bo.Op == token.EQL || bo.Op == token.NEQ) {
+				if (unspill(resolveFree(bo.X)) == ssa.Value(prm) && isNilConst(bo.Y)) || (unspill(resolveFree(bo.Y)) == ssa.Value(prm) && isNilConst(bo.X)) {
+					tested = true
+				}
+			}
+		})
+		if !tested {
+			continue
+		}
+		instrsOf(fn, func(in ssa.Instruction) {
+			fa, ok := in.(*ssa.FieldAddr)
+			if !ok || unspill(resolveFree(fa.X)) != ssa.Value(prm) {
+				return
+			}
+			guarded := anyFact(factsAt(fa.Block()), func(f Cmp) bool {
+				return f.Op == token.NEQ && ((unspill(resolveFree(f.X)) == ssa.Value(prm) && isNilConst(f.Y)) || (unspill(resolveFree(f.Y)) == ssa.Value(prm) && isNilConst(f.X)))
+			})
+			c.Decide(guarded, rule, name+" "+prm.Name()+" dereferenced only where it is not nil", p.InstrPos(fa), "behind "+prm.Name()+" != nil", "the parameter "+prm.Name()+" is compared with nil elsewhere in this function and dereferenced here without that guard: a listener without a fixed peer panics on the first datagram")
+		})
+	}
 	uerr := errOfCall(unpackCall)
 	isUErr := func(v ssa.Value) bool {
 		if v == uerr {
@@ -592,6 +651,7 @@ func checkHostInfo(c *Check, p *Program) {
 		return v
 	}
 	udp4, tcp4 := constVal("UDP4"), constVal("TCP4")
+	checkHostInfoFromAddress(c, p, "C16.T5")
 	c.Decide(udp4 == 1 && tcp4 == 2, "C16.T5", "protocol codes UDP4=1 TCP4=2", "", "KNXnet/IP host protocol codes", fmt.Sprintf("UDP4=%d TCP4=%d", udp4, tcp4))
 	instrsOf(hostFn, func(in ssa.Instruction) {
 		if !staticCallTo(in, hi) {
@@ -938,4 +998,70 @@ func findPackedBuf(fn *ssa.Function, payload ssa.Value, sizeFn, packFn *ssa.Func
 		res = packedBuf{buf: call, at: call, okMk: true, okPack: true, via: " (in " + FuncName(g) + ", which returns the packed buffer on every path)"}
 	})
 	return res
+}
+
+// checkHostInfoFromAddress: the endpoint computed from a socket address is that
+// address - the four octets of its IPv4 form and its port read as a 16-bit
+// decimal number - on every path that reports success.
+func checkHostInfoFromAddress(c *Check, p *Program, rule string) {
+	f := p.Func("knx/knxnet", "HostInfoFromAddress")
+	if f == nil {
+		c.Fail(rule, "knxnet.HostInfoFromAddress", "", "not found")
+		return
+	}
+	name := FuncName(f)
+	var parse *ssa.Call
+	var cp *ssa.Call
+	var portSt *ssa.Store
+	portF := p.Field("knx/knxnet", "HostInfo", "Port")
+	addrF := p.Field("knx/knxnet", "HostInfo", "Address")
+	instrsOf(f, func(in ssa.Instruction) {
+		switch x := in.(type) {
+		case *ssa.Call:
+			if cal := x.Common().StaticCallee(); cal != nil && cal.String() == "strconv.ParseUint" {
+				parse = x
+			}
+			if builtinName(x) == "copy" {
+				if sl, ok := x.Common().Args[0].(*ssa.Slice); ok && fieldOfAddr(sl.X) == addrF {
+					cp = x
+				}
+			}
+		case *ssa.Store:
+			if fieldOfAddr(x.Addr) == portF {
+				portSt = x
+			}
+		}
+	})
+	okParse := false
+	if parse != nil {
+		b, okb := constInt(parse.Common().Args[1])
+		w, okw := constInt(parse.Common().Args[2])
+		okParse = okb && okw && b == 10 && w == 16
+	}
+	c.Decide(okParse, rule, name+" reads the port as a 16-bit decimal number", p.Pos(f.Pos()), "strconv.ParseUint(port, 10, 16)", "the port is not parsed as a decimal number of 16 bits: ports of the upper range (where local ports are allocated) are rejected or misread")
+	okPort := false
+	if portSt != nil && parse != nil {
+		if ex, ok := stripAllConv(portSt.Val).(*ssa.Extract); ok && ex.Tuple == ssa.Value(parse) && ex.Index == 0 {
+			okPort = true
+		}
+	}
+	c.Decide(okPort, rule, name+" Port is the parsed port", p.Pos(f.Pos()), "Port = Port(parsed value)", "the Port of the endpoint is not the parsed port of the address")
+	okAddr := false
+	if cp != nil {
+		if call, ok := stripAllConv(cp.Common().Args[1]).(*ssa.Call); ok && call.Common().StaticCallee() != nil && call.Common().StaticCallee().String() == "(net.IP).To4" {
+			okAddr = true
+		}
+	}
+	c.Decide(okAddr, rule, name+" Address is the IPv4 form of the address", p.Pos(f.Pos()), "copy(Address[:], ip.To4())", "the Address of the endpoint is not the four octets of the IPv4 form")
+	n := 0
+	for _, r := range returnsOf(f) {
+		if len(r.Results) < 2 || !p.returnMayBeNil(r, 1) {
+			continue
+		}
+		n++
+		mnA, _, okA := pathCountTo(f.Blocks[0], r.Block(), func(in ssa.Instruction) bool { return cp != nil && in == ssa.Instruction(cp) })
+		mnP, _, okP := pathCountTo(f.Blocks[0], r.Block(), func(in ssa.Instruction) bool { return portSt != nil && in == ssa.Instruction(portSt) })
+		c.Decide(okA && okP && mnA >= 1 && mnP >= 1, rule, name+" success only with address and port set", p.InstrPos(r), "every path to this return sets both", "the function can report success with an endpoint whose address or port was not set: the request advertises 0.0.0.0:0 although the real endpoint was asked for")
+	}
+	c.Floor(rule, "successful returns of "+name, n, 1)
 }
